@@ -199,7 +199,7 @@ class Inliner:
         h = fis[0]
         if isinstance(h.node, ast.Lambda) or h is caller or h.module is not caller.module:
             return None
-        if h.qualname in getattr(self, 'keep', ()):
+        if h.qualname in getattr(self, 'keep', ()) or h.node.name in getattr(self, 'keep', ()):
             return None
         # same module; helper kinds: module level, nested sibling / child, method of the same class via self / cls / Class
         a = h.node.args
